@@ -150,6 +150,7 @@ static void fd_route (int format, int ch)
 int main (int argc, char **argv)
 {	int f, c, wl, t ;
 	vh_init (argc, argv, "c15_io_faults", "C15") ;
+	vh_case_secs = 30 ; vh_case_cpu_secs = 8 ;		/* per fault point (re-armed in the loops): a workload needs milliseconds */
 	vh_enum_formats () ;
 	memset (&store, 0, sizeof (store)) ; store.cap = 8 << 20 ; store.d = calloc (1, store.cap) ;
 	for (f = 0 ; f < vh_nfmts ; f++)
@@ -180,7 +181,7 @@ int main (int argc, char **argv)
 				for (i = 1 ; i <= K ; i++)
 				{	char *at = strstr (vh_case_desc, " @") ; if (at) *at = 0 ;
 					snprintf (vh_case_desc + strlen (vh_case_desc), sizeof (vh_case_desc) - strlen (vh_case_desc), " @%ld", i) ;
-					alarm (vh_case_secs) ;
+					vh_rearm () ;
 					vh_distinct (vh_fnv (0, &format, 4) ^ ((uint64_t) wl << 40) ^ ((uint64_t) t << 42) ^ ((uint64_t) i << 16) ^ ((uint64_t) kind << 4) ^ (uint64_t) persist ^ ((uint64_t) c << 45)) ;
 					run_workload (format, c, wl, t, &base, i, kind, persist) ;
 					vh_stat ("faulted_runs", 1) ;
@@ -189,7 +190,7 @@ int main (int argc, char **argv)
 						{	g_fault2 = i + 1 + vh_rint ((int) (K - i > 40 ? 40 : K - i + 3)) ; g_kind2 = VF_ZERO + vh_rint (VF_NKINDS - VF_ZERO) ;
 							vh_distinct (vh_fnv (0, &format, 4) ^ ((uint64_t) wl << 40) ^ ((uint64_t) t << 42) ^ ((uint64_t) i << 16) ^ ((uint64_t) kind << 4) ^ ((uint64_t) g_fault2 << 48) ^ ((uint64_t) g_kind2 << 60) ^ ((uint64_t) c << 45)) ;
 							snprintf (vh_case_desc + strlen (vh_case_desc), sizeof (vh_case_desc) - strlen (vh_case_desc), "+%s@%ld", kname [g_kind2], g_fault2) ;
-							alarm (vh_case_secs) ;
+							vh_rearm () ;
 							run_workload (format, c, wl, t, &base, i, kind, 0) ; vh_stat ("double_fault_runs", 1) ;
 							{ char *at2 = strrchr (vh_case_desc, '+') ; if (at2) *at2 = 0 ; }
 							}
